@@ -72,6 +72,11 @@ impl FixtureDatabase {
             self.cleanup_definitions_for_file(&file_path);
         }
 
+        // The derived caches (available fixtures, cycles, imported fixtures) are keyed by
+        // this counter; removing definitions or changing imports must invalidate them just
+        // like adding a definition does.
+        self.invalidate_cycle_cache();
+
         // Check if this is a conftest.py
         let is_conftest = file_path
             .file_name()
